@@ -22,7 +22,7 @@ func ProofPositions(origTargets []uint64, numLeaves uint64, totalRows uint8) ([]
 	if len(origTargets) > int(numLeaves) && TreeRows(numLeaves) > 0 {
 		return nil, nil
 	}
-	var pending uint64
+	var pending uint32
 	for row := uint8(0); row <= totalRows; row++ {
 		for i := 0; i < len(targets); i++ {
 			t := targets[i]
